@@ -4,7 +4,11 @@ proof:  Properties/C07.v (loop_refines: LoopContext state machine == documented 
         every item list, sized or not, every query script; lookahead_transparent; the
         consumed ++ look-ahead ++ remaining invariant over all reachable states; else_iff_empty;
         recursive_depth)
-tie  :  K-rt drives the real classes directly — LoopContext(iterable, undefined, recurse, depth0)
+tie  :  T5 translator: gen/loop_translate.py turns the current source of index, first, depth, length,
+        _peek_next, __next__/__anext__, last, nextitem, previtem, revindex0, revindex, changed, cycle of
+        LoopContext and of the overriding members of AsyncLoopContext into terms of Lib/PyLoop; the
+        generated Gen_loop.v proves  interpreted source = model function  for every state and kind;
+        K-rt drives the real classes directly — LoopContext(iterable, undefined, recurse, depth0)
         and AsyncLoopContext under asyncio — and compiled templates (sync and async, with and
         without loop filter / else / recursive) with the same scripts, over list / tuple /
         iterator / generator / async iterable, and compares every answer of every iteration with
@@ -22,8 +26,9 @@ RULE = ("scripts = per-iteration sequences of queries. exhaustive over the alpha
         "(<= 3 queries per iteration, 0..6 items with repeats) over the full alphabet (index, index0, revindex0, first, "
         "cycle incl. no arguments, changed(const), depth, depth0); each script driven on LoopContext x {list, tuple, "
         "iterator, generator} and AsyncLoopContext x {list, tuple, iterator, generator, async generator}; a sample "
-        "rendered through compiled templates (sync/async, loop filter, else, depth) and recursive loops over random "
-        "forests. distinct = (iterable kind, items, script); non-trivial = an unsized iterable with a look-ahead query "
+        "rendered through compiled templates (sync/async, loop filter, else, depth), through templates with loop "
+        "controls (continue / break after the queries of random iterations, or unconditionally in a body that never "
+        "mentions `loop`; with else and loop filter) and recursive loops over random forests. distinct = (iterable kind, items, script); non-trivial = an unsized iterable with a look-ahead query "
         "before a length query (or the reverse) in one iteration.")
 
 ALPHA6 = ["L", "N", "P", "T", "R", "Cx"]
@@ -193,6 +198,35 @@ def template_source(script, flt):
     return "{% for x in xs" + FILTERS[flt] + " %}{{ x }}:" + body + "|{% else %}ELSE{% endfor %}"
 
 
+CTL_TAG = {"C": "{% continue %}", "B": "{% break %}"}
+
+
+def template_source_ctl(script, ctls, flt, uniform=None):
+    """loop body with jinja2.ext.loopcontrols: `continue` / `break` after the queries of an iteration;
+    uniform = 'C' / 'B': an unconditional control at the end of a body that never mentions `loop`"""
+    if uniform:
+        return "{% for x in xs" + FILTERS[flt] + " %}|{{ x }}:" + CTL_TAG[uniform] + "{% else %}ELSE{% endfor %}"
+    body, first = "", True
+    for i in range(max(len(script), len(ctls))):
+        qs = script[i] if i < len(script) else []
+        c = ctls[i] if i < len(ctls) else "G"
+        if not qs and c == "G":
+            continue
+        body += ("{% if" if first else "{% elif") + f" loop.index0 == {i} %}}" + ";".join("{{ %s }}" % TQ[q] for q in qs) + CTL_TAG.get(c, "")
+        first = False
+    if not first:
+        body += "{% endif %}"
+    return "{% for x in xs" + FILTERS[flt] + " %}|{{ x }}:" + body + "{% else %}ELSE{% endfor %}"
+
+
+def norm_ctl_output(out):
+    if out == "ELSE":
+        return "1 "
+    if "ELSE" in out:
+        return "X:else branch ran after iterations: " + out[:60]
+    return "0 " + out.lstrip("|")
+
+
 def norm_template_output(out):
     if out == "ELSE":
         return "1 "
@@ -259,6 +293,20 @@ def run(ctx):
         "items are compared by value in changed() (modelled as N)",
     ]
     ctx.proof("C07")
+    # T5: the current source of the LoopContext / AsyncLoopContext members, translated into the deep
+    # embedding Lib/PyLoop.v, is proved equal to the model functions for every state
+    import os
+    import sys
+    sys.path.insert(0, os.path.join(lib.ROOT, "gen"))
+    import loop_translate
+    import loop_template
+    try:
+        vtext = loop_translate.emit(lib.SRC)
+        ok, out = ctx.coq_obligation("Gen_loop", vtext, n_obligations=loop_template.N_THEOREMS)
+        if ok:
+            ctx.trusted.append("Gen_loop (LoopContext / AsyncLoopContext source = model): " + " ".join(out.split()))
+    except loop_translate.Untranslatable as e:
+        ctx.broken.append(f"translator gen/loop_translate.py: LoopContext source left the translatable vocabulary: {e}")
 
     bounds = ctx.size({0: 0, 1: 3, 2: 2, 3: 1, 4: 1}, {0: 0, 1: 3, 2: 3, 3: 2, 4: 1, 5: 1, 6: 1})
     scripts = list(exhaustive_scripts(bounds))
@@ -364,6 +412,52 @@ def run(ctx):
         else:
             ctx.validated()
 
+    # ---- loop controls (jinja2.ext.loopcontrols): continue / break at random positions, with else and loop filter
+    lc_envs = {}
+    for mode in ("sync", "async"):
+        env = jinja2.Environment(enable_async=(mode == "async"), extensions=["jinja2.ext.loopcontrols"])
+        env.filters["a"] = cn.a
+        env.filters["it"] = cn.item
+        lc_envs[mode] = env
+    lcases = []
+    for j in range(ctx.size(1200, 12000)):
+        xs, script = pool[ctx.rng.randrange(len(pool))]
+        flt = ctx.rng.choice(["-", "-", "o", "e", "n"])
+        mode = "async" if j % 2 else "sync"
+        kind = ctx.rng.choice(["list", "tuple", "iter", "gen"] + (["agen"] if mode == "async" else []))
+        uniform = ctx.rng.choice([None, None, None, "C", "B"])
+        if uniform:
+            script, ctls = [], [uniform] * 8
+        else:
+            ctls = [ctx.rng.choice("GGGCCB") for _ in range(ctx.rng.randint(0, len(xs) + 1))]
+        lcases.append({"via": "loopcontrols/" + mode, "iterable": kind, "items": xs, "script": script, "filter": flt,
+                       "ctls": ctls, "uniform": uniform, "depth0": 0})
+    lout = ctx.driver("loop", [line_L("U" if c["filter"] != "-" else SIZED[c["iterable"]], c["filter"], 0, c["items"], c["script"])
+                               + " " + (",".join(c["ctls"]) if c["ctls"] else "-") for c in lcases])
+    for c, ln in zip(lcases, lout):
+        m, s = ln[2:].split(" S ", 1)
+        mode = c["via"].split("/")[1]
+        src = template_source_ctl(c["script"], c["ctls"], c["filter"], c["uniform"])
+        try:
+            t = lc_envs[mode].from_string(src)
+            data = MAKE[c["iterable"]](c["items"])
+            real = asyncio.run(t.render_async(xs=data)) if mode == "async" else t.render(xs=data)
+            real = norm_ctl_output(real)
+        except Exception as e:  # noqa
+            real = "X:" + type(e).__name__ + ":" + str(e)[:60]
+        c2 = dict(c, template=src)
+        ctx.case(key=("lc", mode, c["iterable"], c["filter"], tuple(c["items"]), enc_script(c["script"]), tuple(c["ctls"]))
+                 if any(x != "G" for x in c["ctls"]) and c["items"] else None)
+        ctx.count("loopcontrols_" + mode + ("_uniform" if c["uniform"] else ""))
+        if real != s:
+            ctx.model_mismatch("K-rt compiled loop with loop controls", c2, m, real,
+                               f"documented loop gives {s!r}, template renders {real!r} ({first_diff(s, real)})",
+                               f"loop with continue/break wrong in template/{mode}" + (" (else branch)" if "else branch" in real else ""))
+        elif real != m:
+            ctx.model_mismatch("K-rt compiled loop with loop controls", c2, m, real, None)
+        else:
+            ctx.validated()
+
     # ---- recursive loops
     rsrc = ("{% for n in forest recursive %}{{ n.l }}:{{ loop.depth0 }}/{{ loop.depth }},"
             "{{ loop(n.c) }}{% endfor %}")
@@ -374,9 +468,10 @@ def run(ctx):
     for j, (f, ln) in enumerate(zip(fcases, fout)):
         m, s = ln[2:].split(" S ", 1)
         mode = "async" if j % 2 else "sync"
-        case = {"via": "recursive/" + mode, "forest": forest_src(f), "template": rsrc}
+        src_j = rsrc.replace("{% endfor %}", "{% continue %}{% endfor %}") if j % 3 == 0 else rsrc
+        case = {"via": "recursive/" + mode, "forest": forest_src(f), "template": src_j}
         try:
-            t = envs[mode].from_string(rsrc)
+            t = (lc_envs if j % 3 == 0 else envs)[mode].from_string(src_j)
             data = forest_data(f)
             real = asyncio.run(t.render_async(forest=data)) if mode == "async" else t.render(forest=data)
             pairs = []
